@@ -15,7 +15,7 @@ pub fn spec() -> Spec {
     Spec {
         prop: "C05",
         level: "exploration",
-        rule: "Twin: the disturbed instance gets a generated history with out-of-protocol and malformed brc20_* calls injected at arbitrary positions (also mid-block); the clean instance gets the same history minus exactly the calls that returned errors. All remaining responses, Obs at every block boundary, the non-executing part of Obs and txpool_content mid-block must be equal, and the open block must finalise with the same count. A must-reject table from the statement (wrong tx_idx, other timestamp/hash than the open block, wrong finalise count, existing block hash, existing/non-next height via initialise, commit/reorg/mine while a block is open, both or neither data encodings, undecodable raw transaction, malformed pkscript, non-numeric amount) must always be refused. Non-trivial = injected call that returned an error while >=1 transaction of the open block or >=1 pool entry existed; distinct by (call kind, reason, mid-block?).",
+        rule: "Twin: the disturbed instance gets a generated history with out-of-protocol and malformed brc20_* calls injected at arbitrary positions (also mid-block); the clean instance gets the same history minus exactly the calls that returned errors. All remaining responses, Obs at every block boundary, the non-executing part of Obs and txpool_content mid-block must be equal, and the open block must finalise with the same count. A must-reject table from the statement (wrong tx_idx, other timestamp/hash than the open block, wrong finalise count, existing block hash, existing/non-next height via initialise, commit/reorg/mine while a block is open, both or neither data encodings, undecodable raw transaction, malformed pkscript, non-numeric amount) must always be refused. Durability: histories contain clearCaches / restarts after injections and end with one on both instances, so that anything a rejected call wrote to disk becomes visible. Non-trivial = injected call that returned an error while >=1 transaction of the open block or >=1 pool entry existed; distinct by (call kind, reason, mid-block?).",
         assumptions: vec![
             "brc20_transact whose transaction is ignored or parked (stale / future nonce / other chain id) does not consume a block position; its tx_idx/timestamp/hash are not judged (C08 covers those paths)".into(),
             "the fake Bitcoin node is up, so brc20_initialise's documented environment error does not occur".into(),
@@ -167,6 +167,12 @@ fn run_case(ctx: &WorkerCtx, rep: &mut WorkerReport, case_seed: u64, blocks: u64
         }
         if rng.chance(1, 2) {
             inject!();
+            // what a rejected call wrote to disk only shows once the uncommitted part is dropped
+            if d.ntx == 0 && d.committed >= 0 && rng.chance(1, 4) {
+                d.exec(if rng.chance(1, 2) { Op::Clear } else { Op::Reopen });
+                sync!();
+                steps.push(Step::ObsBoundary);
+            }
         }
         let blk = w.block_ctx(&d);
         let n = rng.range(0, 5);
@@ -235,6 +241,26 @@ fn run_case(ctx: &WorkerCtx, rep: &mut WorkerReport, case_seed: u64, blocks: u64
                                "recent_rejected": steps[..si].iter().filter_map(|s| match s { Step::Call(o, r) if r.is_err() => Some(json!({"op": o, "err": r.short()})), _ => None }).collect::<Vec<_>>().into_iter().rev().take(8).collect::<Vec<_>>()}));
                     break;
                 }
+            }
+        }
+    }
+    // epilogue: drop everything uncommitted on both; a rejected call must not have made anything durable
+    if rep.violations.is_empty() && dd.ntx == 0 && cc.ntx == 0 && dd.committed >= 0 {
+        let op = if rng.chance(1, 2) { Op::Clear } else { Op::Reopen };
+        let (rd, rc) = (dd.exec(op.clone()), cc.exec(op.clone()));
+        if rd.is_ok() && rc.is_ok() {
+            let mut uu = u.clone();
+            uu.max_height = d.height.max(0) as u64 + 1;
+            let (od, oc) = observe_pair(&mut dd.inst, &mut cc.inst, &uu, ObsMode::Boundary);
+            rep.evaluations += 1;
+            let diff = od.diff(&oc);
+            if !diff.is_empty() {
+                violation(rep, "C05", ctx.seed, &format!("durable-state-differs:{}", obs_diff_sig(&diff)),
+                    format!("after dropping the uncommitted blocks ({}) the instance that received {} rejected calls answers {} queries differently from the one that never saw them: a rejected call wrote to disk", op.kind(), removed, diff.len()),
+                    json!({"case_seed": case_seed, "network": net, "differences(disturbed vs clean)": obs::diff_summary(&diff, 10),
+                           "rejected": steps.iter().filter_map(|s| match s { Step::Call(o, r) if r.is_err() => Some(json!({"op": o, "err": r.short()})), _ => None }).collect::<Vec<_>>().into_iter().rev().take(8).collect::<Vec<_>>()}));
+            } else if removed > 0 {
+                rep.nontrivial(format!("durable-state-unchanged:{}", op.kind()));
             }
         }
     }
